@@ -155,6 +155,21 @@ def run(ctx: Context) -> None:
                 ok = any(pol == 'unless' and pat.match(t) for pol, t in tests)
                 ctx.check('R11.1', ok, f"CF {n}-D grid matches only {n}-dimensional latitude and longitude", fi, r,
                           construct=f"tests before `{norm_text(r)}`: {[t for _, t in tests]}")
+                if n == 1:
+                    pat2 = re.compile(r"(?:[\w.()]*\.)?latitude\.dims == (?:[\w.()]*\.)?longitude\.dims$|(?:[\w.()]*\.)?longitude\.dims == (?:[\w.()]*\.)?latitude\.dims$")
+                    ok2 = any(pol == 'unless' and pat2.match(t) for pol, t in tests)
+                    ctx.check('R11.1', ok2, "a CF 1-D grid needs latitude and longitude on two different dimensions: both along one dimension is a list of locations, "
+                              "which no convention handles and which must be refused", fi, r, construct=f"tests before `{norm_text(r)}`: {[t for _, t in tests]}")
+                else:
+                    pat2 = re.compile(r"set\((?:[\w.()]*\.)?latitude\.dims\) != set\((?:[\w.()]*\.)?longitude\.dims\)$|set\((?:[\w.()]*\.)?longitude\.dims\) != set\((?:[\w.()]*\.)?latitude\.dims\)$"
+                                      r"|(?:[\w.()]*\.)?latitude\.dims != (?:[\w.()]*\.)?longitude\.dims$|(?:[\w.()]*\.)?longitude\.dims != (?:[\w.()]*\.)?latitude\.dims$")
+                    ok2 = any(pol == 'unless' and pat2.match(t) for pol, t in tests)
+                    ctx.check('R11.1', ok2, "a CF 2-D grid needs latitude and longitude on the same two dimensions (a latitude on the node grid with a longitude on the face grid is not a grid)",
+                              fi, r, construct=f"tests before `{norm_text(r)}`: {[t for _, t in tests]}")
+        from . import infra as _infra3
+        for q in ('latitude_name', 'longitude_name'):
+            _infra3.bounds_excluded(ctx, 'R11.1', f"emsarray.conventions.grid.CFGridTopology.{q}", f"{q[:-5]} discovery")
+        _infra3.bounds_names_helper(ctx, 'R11.1')
 
     # ------------------------------------------------------------------ R11.2
     with ctx.section('R11.2'):
@@ -399,6 +414,12 @@ def run(ctx: Context) -> None:
         bc = ctx.func(f"{STATE}.bind_convention")
         flow = ctx.flow(bc)
         stores = [n for n in walk_no_nested(bc.node) if isinstance(n, ast.Assign) and norm_text(n.targets[0]) == 'self.convention']
+        from .common import guards as _guards11
+        g_store = _guards11(bc, stores[0]) if len(stores) == 1 else []
+        raises_bc = [n for n in ast.walk(bc.node) if isinstance(n, ast.Raise)]
+        ok_refuse = len(stores) == 1 and ('self.is_bound()', False) in g_store and any(('self.is_bound()', True) in _guards11(bc, r_) for r_ in raises_bc)
+        ctx.check('R11.4', ok_refuse, "bind_convention itself refuses a second convention (as its docstring says): the store is reached only when the state is unbound, an error is raised otherwise", bc,
+                  stores[0] if stores else bc.node, construct=f"store guards {g_store}; raises {len(raises_bc)}")
         ctx.check('R11.4', len(stores) == 1 and flow.canon(stores[0].value) == ('param', bc.params[1]), "bind_convention stores the convention it is given", bc,
                   stores[0] if stores else bc.node)
         ib = ctx.func(f"{STATE}.is_bound")
@@ -498,6 +519,11 @@ VARIANTS = [
     V('C11', 'ugrid-no-marker', _U, "        if 'UGRID' not in conventions:\n            return None\n", "", 'R11.1'),
     V('C11', 'shoc-simple-low', _S, "            return None\n        return Specificity.HIGH", "            return None\n        return Specificity.LOW", 'R11.1'),
     V('C11', 'enum-values-collapsed', _B, "    HIGH = 30", "    HIGH = 10", 'R11.1'),
+    V('C11', 'cf1d-accepts-shared-dimension', 'src/emsarray/conventions/grid.py', "        if latitude.dims == longitude.dims:\n            return None\n", "", 'R11.1'),
+    V('C11', 'cf2d-accepts-different-dimensions', 'src/emsarray/conventions/grid.py', "        if set(latitude.dims) != set(longitude.dims):\n            return None\n", "", 'R11.1'),
+    V('C11', 'latitude-may-be-a-bounds-variable', 'src/emsarray/conventions/grid.py', "                if name not in bounds_names and (\n                    variable.attrs.get('units') in CF_LATITUDE_UNITS", "                if (\n                    variable.attrs.get('units') in CF_LATITUDE_UNITS", 'R11.1'),
+    V('C11', 'bounds-names-only-coords', 'src/emsarray/utils.py', "        for variable in dataset.variables.values()\n        if 'bounds' in variable.attrs", "        for variable in dataset.coords.values()\n        if 'bounds' in variable.attrs", 'R11.1'),
+    V('C11', 'bind-convention-overwrites', 'src/emsarray/state.py', "        if self.is_bound():\n            raise ValueError(\n                \"A convention has already been bound to this dataset, \"\n                \"cannot assign a new convention.\")\n        self.convention = convention", "        self.convention = convention", 'R11.4'),
     V('C11', 'cf1d-accepts-any-rank', 'src/emsarray/conventions/grid.py', "        if len(latitude.dims) != 1 or len(longitude.dims) != 1:\n            return None\n", "", 'R11.1'),
     V('C11', 'reverse-dropped', _R, "        return sorted(matches, key=lambda m: m[1], reverse=True)", "        return sorted(matches, key=lambda m: m[1])", 'R11.2'),
     V('C11', 'tie-order-reversed', _R, "        return sorted(matches, key=lambda m: m[1], reverse=True)", "        return sorted(matches, key=lambda m: m[1])[::-1]", 'R11.2'),
